@@ -11,6 +11,7 @@ calls replaced by the model's answer for their arguments — produces exactly `e
 and likewise `analyzeAndModifyExpr` / `evE`. A change of the walkers (an arm added, dropped or
 reordered, another field walked, a guard changed, an early return) changes the IR or makes the
 translation fail, and these theorems no longer check. -/
+set_option linter.unusedSimpArgs false
 namespace GoatSpec.WalkerTie
 open GoatSpec GoatSpec.GoAst GoatSpec.WalkIR GoatSpec.WalkSpec
 
@@ -214,5 +215,134 @@ example : (unfold Walker.processStatements
       (.stmt (.declS 5 2 8 [.valueSpec none [.other 5 5 []], .valueSpec none [], .valueSpec none [.other 7 7 []]]))).map expand
     = some [.check 5, .check 5] := by
   rw [processStatements_is_evS _ rfl]; rfl
+
+/-! ## the control-statement pass -/
+
+theorem ctlS_split (ch : Nat → Bool) (s : Stmt) : ctlS ch s = ctlHead ch s ++ ctlKids ch s := by
+  cases s with
+  | ifS l e init ir cr cond lb rb body els =>
+    rcases els with _ | ⟨x, _ | ⟨y, ys⟩⟩ <;> try cases x
+    all_goals simp [ctlS, ctlHead, ctlKids, elseForce]
+  | _ => simp [ctlS, ctlHead, ctlKids]
+
+macro "ctl_simp" : tactic => `(tactic|
+  simp [inspect, Walker.processControlStatements, evalCArms, evalCL, evalCA, evalC, GVal.kind, GStmt.kind, Ctx.resolve,
+    resolveFrom, GVal.get, getS, ofOS, ofOE, GVal.nonNil, GVal.posLine, GVal.endLine, GVal.tokLine, GVal.len,
+    GStmt.rng, abstrS, abstrE, abstrOS, abstrL, ctlHead, elseForce])
+
+theorem abstrL_isEmpty (l : List GStmt) : (abstrL l).isEmpty = l.isEmpty := by
+  cases l <;> simp [abstrL]
+
+def clauseForce1 : Stmt → List Ev
+  | .caseC _ _ _ _ colon body => if body.isEmpty then [] else [Ev.force (colon + 1)]
+  | _ => []
+
+theorem clauseForces_flatMap (l : List Stmt) : clauseForces l = l.flatMap clauseForce1 := by
+  induction l with
+  | nil => rfl
+  | cons x xs ih => cases x <;> simp [clauseForces, clauseForce1, ih]
+
+theorem abstrL_flatMap (f : Stmt → List Ev) (l : List GStmt) : (abstrL l).flatMap f = l.flatMap (fun x => f (abstrS x)) := by
+  induction l with
+  | nil => rfl
+  | cons x xs ih => simp [abstrL, ih]
+
+theorem joinC_map_some {α : Type} (b : Bool) (f : α → List Ev) (l : List α) :
+    joinC b (l.map fun x => some (f x, b, false)) = some (l.flatMap f, b, false) := by
+  induction l with
+  | nil => rfl
+  | cons x xs ih => simp [joinC, ih]
+
+/-- the body of the `range n.Body.List` loop of the switch arms, for one clause -/
+theorem clauseBody (ch : Nat → Bool) (r : GVal) (b : Bool) (x : GStmt) :
+    evalCL ch { root := r, vars := [("$subStmt", .stmt x)] } b
+      [.guard (.and (.isKind ["$subStmt"] "CaseClause") (.nonEmpty ["$subStmt", "Body"])) [.force ["$subStmt"] "Colon"]]
+      = some (clauseForce1 (abstrS x), b, false) := by
+  cases x with
+  | exprS l c e y =>
+    cases y <;> simp [evalCL, evalCA, evalC, Ctx.resolve, resolveFrom, List.lookup, GVal.kind, GStmt.kind, abstrS, abstrE, clauseForce1]
+  | caseC l c e list colon body =>
+    cases body <;> simp [evalCL, evalCA, evalC, Ctx.resolve, resolveFrom, List.lookup, GVal.kind, GStmt.kind, GVal.get, getS,
+      GVal.len, GVal.tokLine, abstrS, abstrL, clauseForce1]
+  | _ => simp [evalCL, evalCA, evalC, Ctx.resolve, resolveFrom, List.lookup, GVal.kind, GStmt.kind, abstrS, clauseForce1]
+
+theorem clauseEach (ch : Nat → Bool) (g : GStmt) (lb rb : Nat) (cl : List GStmt) (b : Bool)
+    (hb : getS g "Body" = .block lb rb cl) :
+    evalCA ch { root := .stmt g, vars := [] } b
+      (.each ["Body", "List"] "$subStmt"
+        [.guard (.and (.isKind ["$subStmt"] "CaseClause") (.nonEmpty ["$subStmt", "Body"])) [.force ["$subStmt"] "Colon"]])
+      = some (clauseForces (abstrL cl), b, false) := by
+  rw [evalCA.eq_8]
+  simp [Ctx.resolve, resolveFrom, hb, GVal.get, GVal.elems, List.map_map, Function.comp_def, clauseBody, joinC_map_some,
+    clauseForces_flatMap, abstrL_flatMap]
+
+/-- **`processControlStatements`, as translated from the source, forces exactly the model's marks.**
+    For every statement node the callback of the `ast.Inspect` pass — the arm selected by the
+    type switch, the `changed` computation over the header parts, the forced marks — yields the
+    model's own forced marks `ctlHead` of the abstracted node (`ctlS = ctlHead ++ ctlKids`,
+    `ctlS_split`; the visit of the children is go/ast's traversal). -/
+theorem processControlStatements_is_ctlHead (ch : Nat → Bool) (g : GStmt) :
+    inspect Walker.processControlStatements ch (.stmt g) = some (ctlHead ch (abstrS g)) := by
+  cases g with
+  | assign l c e lhs rhs => ctl_simp
+  | ret l c e rs => ctl_simp
+  | deferS l c e fn args => ctl_simp
+  | goS l c e fn args => ctl_simp
+  | exprS l c e x => cases x <;> ctl_simp
+  | declS l c e specs => ctl_simp
+  | block l c e list => ctl_simp
+  | labeled l c e s => ctl_simp
+  | ifS l c e init cond lb rb body els =>
+    cases init <;> cases els with
+    | none => ctl_simp
+    | some s =>
+      cases s with
+      | exprS l' c' e' x => cases x <;> ctl_simp
+      | block l' c' e' list => cases list <;> ctl_simp
+      | _ => ctl_simp
+  | forS l c e init cond post lb rb body => cases init <;> cases cond <;> cases post <;> ctl_simp
+  | rangeS l c e key value x lb rb body => cases key <;> cases value <;> ctl_simp
+  | switchS l c e init tag lb rb cl =>
+    have heach := fun b => clauseEach ch (.switchS l c e init tag lb rb cl) lb rb cl b (by simp [getS])
+    cases init <;> cases tag <;>
+    simp [inspect, Walker.processControlStatements, evalCArms, evalCL, evalCA.eq_2, evalCA.eq_3, evalCA.eq_5, heach, evalC,
+      GVal.kind, GStmt.kind, Ctx.resolve, resolveFrom, GVal.get, getS, ofOS, ofOE, GVal.nonNil, GVal.posLine, GVal.endLine,
+      GVal.tokLine, GStmt.rng, abstrS, abstrOS, abstrL, ctlHead]
+  | typeSwitchS l c e init asg lb rb cl =>
+    have heach := fun b => clauseEach ch (.typeSwitchS l c e init asg lb rb cl) lb rb cl b (by simp [getS])
+    cases init <;>
+    simp [inspect, Walker.processControlStatements, evalCArms, evalCL, evalCA.eq_2, evalCA.eq_3, evalCA.eq_5, heach, evalC,
+      GVal.kind, GStmt.kind, Ctx.resolve, resolveFrom, GVal.get, getS, ofOS, ofOE, GVal.nonNil, GVal.posLine, GVal.endLine,
+      GVal.tokLine, GStmt.rng, abstrS, abstrOS, abstrL, ctlHead]
+  | selectS l c e lb rb cl => ctl_simp
+  | caseC l c e list colon body =>
+    cases list <;> ctl_simp
+  | commC l c e comm colon body => cases comm <;> ctl_simp
+  | otherS l c e cs => ctl_simp
+
+/-- expression nodes (and every other node kind `ast.Inspect` visits) force nothing themselves -/
+theorem processControlStatements_expr (ch : Nat → Bool) (e : GExpr) :
+    inspect Walker.processControlStatements ch (.expr e) = some [] := by
+  cases e <;> simp [inspect, Walker.processControlStatements, evalCArms, GVal.kind, GExpr.kind]
+
+/-- the model's control pass on an abstracted statement: the translated callback on the node itself,
+    then go/ast's visit of the children -/
+theorem ctlS_is_callback_then_children (ch : Nat → Bool) (g : GStmt) :
+    some (ctlS ch (abstrS g)) = (inspect Walker.processControlStatements ch (.stmt g)).map (· ++ ctlKids ch (abstrS g)) := by
+  rw [processControlStatements_is_ctlHead, ctlS_split]; rfl
+
+/-- non-vacuity: `switch x { case 1: a(); case 2: }` with a changed `switch` line forces the first
+    clause only (the second has no body); an unchanged header forces nothing -/
+example : inspect Walker.processControlStatements (fun l => l == 3)
+      (.stmt (.switchS 3 2 8 none (some (.other 3 3 [])) 3 8
+        [.caseC 4 2 5 [.other 4 4 []] 4 [.otherS 5 3 5 []], .caseC 6 2 6 [.other 6 6 []] 6 []]))
+    = some [.force 5] := by
+  rw [processControlStatements_is_ctlHead]; rfl
+
+example : inspect Walker.processControlStatements (fun _ => false)
+      (.stmt (.switchS 3 2 8 none (some (.other 3 3 [])) 3 8
+        [.caseC 4 2 5 [.other 4 4 []] 4 [.otherS 5 3 5 []]]))
+    = some [] := by
+  rw [processControlStatements_is_ctlHead]; rfl
 
 end GoatSpec.WalkerTie
